@@ -83,7 +83,8 @@ Clause(ev, la, loc2, adj2) ==
     CASE ev.e = "open" -> JudgeOpen(ev, la, loc2, adj2)
       [] ev.e = "load" -> JudgeLoad(ev, la)
       [] ev.e = "cli"  -> JudgeCli(ev, la, loc2, adj2)
-      [] ev.e \in {"mutate", "copy", "drop"} -> JudgeQuiet(ev)
+      [] ev.e = "copy" -> IF JudgeQuiet(ev) # "" THEN JudgeQuiet(ev) ELSE IF ~ev.typed THEN "copy-untyped" ELSE ""   \* a copy is a tree like any other (C12)
+      [] ev.e \in {"mutate", "drop"} -> JudgeQuiet(ev)
       [] OTHER -> ""
 
 HasCells(ev) == ev.e \in {"open", "cli"}
